@@ -91,7 +91,7 @@ pub fn err_s(e: &ValidationErr) -> String {
 }
 
 /// every 48-byte atom of the tree that blst accepts as a valid non-infinity key
-fn valid_pks(t: &T, out: &mut Vec<Vec<u8>>) {
+pub fn valid_pks(t: &T, out: &mut Vec<Vec<u8>>) {
     match t {
         T::P(l, r) => { valid_pks(l, out); valid_pks(r, out); }
         T::A(b) => if b.len() == 48 && !out.contains(b) {
